@@ -168,6 +168,19 @@ def worker_loop(
                 except Exception as e:
                     # Log any error during processing without crashing the loop
                     worker_logger.exception(f"Worker failed job {job_id}: {e}")
+                    # Report the failure so the master can complete the job's Future
+                    try:
+                        transport.publish(
+                            f"jobs.{job_id}.status",
+                            data=None,
+                            context=ContextType({"job_id": job_id}),
+                            metadata={"job_id": job_id, "error": e},
+                            require_ack=False,
+                        )
+                    except Exception as publish_exc:  # pragma: no cover - defensive
+                        worker_logger.exception(
+                            f"Worker could not report failure of job {job_id}: {publish_exc}"
+                        )
 
             # Close this subscription before the next polling iteration
             sub.close()
